@@ -380,6 +380,16 @@ pub fn run(tier: Tier) -> i32 {
         }
     });
     run.absorb(l);
+    // size witnesses (strings, widths and nesting around 2^6 … 2^16)
+    let sw = u::size_witnesses(tier);
+    let l = par_for_stack(sw.len(), stack, |i, local| {
+        local.eval();
+        local.count("size-witnesses");
+        if let Err((e, p)) = check_v(&sw[i]) {
+            local.fail(&format!("{e}:{}", shape_sig(&sw[i])), json!({"value": to_json(&sw[i])}), p);
+        }
+    });
+    run.absorb(l);
     let docs = json_docs();
     let l = par_for_stack(docs.len(), stack, |i, local| {
         local.eval();
